@@ -31,7 +31,7 @@ import (
 )
 
 func init() {
-	props["C05"] = func(r *Rec) { runStake(r, "C05"); c05UpgradeFlow(r, "C05"); c05DuplicateConsKey(r, "C05"); c06RestartWithIdleValidator(r, "C05"); c05OrphanSigningRecord(r) }
+	props["C05"] = func(r *Rec) { runStake(r, "C05"); c05UpgradeFlow(r, "C05"); c05DuplicateConsKey(r, "C05"); c06RestartWithIdleValidator(r, "C05"); c05OrphanSigningRecord(r); c05TwoClaimsOneBlock(r) }
 	props["C15"] = func(r *Rec) { runStake(r, "C15"); c15DupKeyKeepsDeadline(r) }
 }
 
@@ -1311,5 +1311,76 @@ func c05OrphanSigningRecord(r *Rec) {
 	r.Case(label, true)
 	if accepted || err != nil || len(w.valSet.Validators) == 0 {
 		r.Fail("C05/pause/last-validator-left-the-set", fmt.Sprintf("%s: the only validator's MsgPause was accepted=%v; applying the block's updates: %v; the consensus set now has %d members", label, accepted, err, len(w.valSet.Validators)), nil)
+	}
+}
+
+// c05TwoClaimsOneBlock (deterministic): two accounts claim a seat in the SAME block; in the next block one of the two new
+// validators pauses (either one, in two variants), one block later it unpauses. Every block's updates are applicable and the
+// consensus set is the set of active validators after each of them.
+func c05TwoClaimsOneBlock(r *Rec) {
+	for variant := 0; variant < 2; variant++ {
+		label := fmt.Sprintf("two claims in one block, then claimant %d pauses", 2+variant)
+		r.Mark(label)
+		w := NewWorld(WorldOpts{NAcc: 6, NVal: 2, SudoAccs: []int{5}})
+		gk := w.app.CustomGovKeeper
+		ctx0 := w.KeeperCtx()
+		for _, i := range []int{2, 3} {
+			a, ok := gk.GetNetworkActorByAddress(ctx0, w.addrs[i])
+			if !ok {
+				a = govtypes.NewDefaultActor(w.addrs[i])
+			}
+			if err := gk.AddWhitelistPermission(ctx0, a, govtypes.PermClaimValidator); err != nil {
+				r.Count("two-claims:setup-failed")
+				return
+			}
+		}
+		check := func(what string, txs [][]byte) bool {
+			br := w.Block(txs, BlockOpts{Dt: 6 * time.Second})
+			if br.Panicked != nil {
+				r.Fail("C05/two-claims/panic", fmt.Sprintf("%s: block %d (%s) panicked in %s: %.200v", label, w.height, what, br.Phase, br.Panicked), nil)
+				return false
+			}
+			for i, res := range br.Results {
+				if res.Code != 0 {
+					r.Count(fmt.Sprintf("two-claims:tx-failed:%s:%d", what, i))
+				}
+			}
+			if err := w.ApplyUpdates(br.Updates); err != nil {
+				r.Fail("C05/two-claims/updates-not-applicable", fmt.Sprintf("%s: block %d (%s): the consensus engine rejects the validator updates %v: %v", label, w.height, what, br.Updates, err), nil)
+				return false
+			}
+			ctx := w.ReadCtx()
+			inSet := map[string]bool{}
+			for _, v := range w.valSet.Validators {
+				inSet[string(v.Address)] = true
+			}
+			for i := 0; i < 4; i++ {
+				val, err := w.app.CustomStakingKeeper.GetValidator(ctx, sdk.ValAddress(w.addrs[i]))
+				if err != nil {
+					continue
+				}
+				if (val.Status == stakingtypes.Active) != inSet[string(val.GetConsAddr())] {
+					r.Fail("C05/two-claims/set-mismatch", fmt.Sprintf("%s: after block %d (%s) the validator of account %d has status %s, consensus-set membership %v", label, w.height, what, i, val.Status, inSet[string(val.GetConsAddr())]), nil)
+					return false
+				}
+			}
+			return true
+		}
+		var claims [][]byte
+		for k, i := range []int{2, 3} {
+			cm, err := stakingtypes.NewMsgClaimValidator(fmt.Sprintf("joiner%d", k), sdk.ValAddress(w.addrs[i]), detConsKey(20+k).PubKey())
+			if err != nil {
+				return
+			}
+			claims = append(claims, w.MustSign([]sdk.Msg{cm}, i, ukex(5000)))
+		}
+		p := 2 + variant
+		ok := check("both claim", claims) &&
+			check("one of them pauses", [][]byte{w.MustSign([]sdk.Msg{slashingtypes.NewMsgPause(sdk.ValAddress(w.addrs[p]))}, p, ukex(5000))}) &&
+			check("settle", nil) &&
+			check("it unpauses", [][]byte{w.MustSign([]sdk.Msg{slashingtypes.NewMsgUnpause(sdk.ValAddress(w.addrs[p]))}, p, ukex(5000))}) &&
+			check("settle", nil) && check("settle", nil)
+		r.Case(label, ok)
+		r.Count(fmt.Sprintf("two-claims:completed=%v", ok))
 	}
 }
